@@ -228,7 +228,10 @@ def build_dataset(name, opts, p):
         order = list(d.components)
         main = [c for c in order if c in d.main_components or c in d.derived_components]
         rest = [c for c in order if c not in main]
-        d.reorder_components(rest + main[::-1])
+        if opts.get('reorder') == 'all':
+            d.reorder_components(order[::-1])          # coordinate components out of axis order as well
+        else:
+            d.reorder_components(rest + main[::-1])
     for k, v in STYLES[opts.get('style', 'default')].items():
         setattr(d.style, k, v)
     for k, v in METAS[opts.get('meta', 'none')].items():
@@ -849,6 +852,9 @@ def observe(main, original):
         o['kinds'] = [comp_kind(d, c) for c in comps]
         o['values'] = [guarded(lambda c=c: d[c]) for c in comps]
         o['units'] = [str(getattr(d.get_component(c), 'units', None) or '') for c in comps]
+        # which component is the pixel / world attribute OF WHICH AXIS (axis i <-> i-th entry), with its values
+        o['axes'] = [[c.label, getattr(c, 'axis', None), guarded(lambda c=c: d[c])]
+                     for c in list(d.pixel_component_ids) + list(d.world_component_ids)]
         o['linked'] = {}
         for j, k, cid in universe:
             if j != i:
@@ -957,6 +963,8 @@ def compare(o0, o1, main0, main1, case):
             if a['units'][k] != b['units'][k] and (case.get('include_data', True) or
                                                    case['datasets'][i][1].get('backing', 'mem') == 'mem'):
                 add('units', 'units|%s' % a['kinds'][k], {lab: b['units'][k]}, {lab: a['units'][k]})
+        if a.get('axes') != b.get('axes'):
+            add('coordinates', 'coordinate-attributes|axis-assignment', b.get('axes'), a.get('axes'))
         seen_linked = set()
         for k in sorted(a['linked']):
             if a['linked'][k] != b['linked'].get(k):
@@ -1238,7 +1246,7 @@ def kind_cases(tier):
                 continue
             kindsets = [[k] for k in ALL_KINDS] + [list(ALL_KINDS), []]
             for ks in kindsets:
-                for reorder in ([False, True] if (tier == 'thorough' or len(ks) != 1) else [False]):
+                for reorder in ([False, True, 'all'] if (tier == 'thorough' or len(ks) != 1) else [False]):
                     o = {'kinds': ks, 'reorder': reorder}
                     if coords != 'none':
                         o['coords'] = coords
